@@ -36,7 +36,7 @@ func main() {
 	list := flag.Bool("list", false, "list loops")
 	k := flag.Int("k", -1, "loop index to mutate")
 	limit := flag.Int("limit", 2, "iterations before the loop leaves")
-	mode := flag.String("mode", "break", "break: the loop leaves after -limit iterations; skip: the loop skips iteration number -limit+1; lit: integer literal number k is incremented; errnil: the k-th `return …, err` returns nil instead; cmp: the k-th strict/non-strict ordered comparison is toggled (< <-> <=, > <-> >=); del: the k-th assignment / call statement is dropped (++ becomes --); neg: the k-th if condition is negated; andor: && <-> ||; eq: == <-> !=; arith: + <-> -")
+	mode := flag.String("mode", "break", "break: the loop leaves after -limit iterations; skip: the loop skips iteration number -limit+1; lit: integer literal number k is incremented; errnil: the k-th `return …, err` returns nil instead; cmp: the k-th strict/non-strict ordered comparison is toggled (< <-> <=, > <-> >=); del: the k-th assignment / call statement is dropped (++ becomes --); neg: the k-th if condition is negated; andor: && <-> ||; eq: == <-> !=; arith: + <-> -; ctl: break <-> continue")
 	dst := flag.String("dst", "", "output directory")
 	flag.Parse()
 
@@ -52,7 +52,7 @@ func main() {
 		node ast.Node
 	}
 	var lits, errRets, cmps []site
-	var dels, negs, andors, eqs, ariths []site
+	var dels, negs, andors, eqs, ariths, ctls []site
 	for _, fname := range files {
 		if strings.HasSuffix(fname, "_test.go") {
 			continue
@@ -99,6 +99,10 @@ func main() {
 					case token.ADD, token.SUB:
 						ariths = append(ariths, site{fname, fd.Name.Name, fset.Position(x.Pos()), f, x})
 					}
+				case *ast.BranchStmt:
+					if x.Label == nil && (x.Tok == token.BREAK || x.Tok == token.CONTINUE) {
+						ctls = append(ctls, site{fname, fd.Name.Name, fset.Position(x.Pos()), f, x})
+					}
 				case *ast.IfStmt:
 					negs = append(negs, site{fname, fd.Name.Name, fset.Position(x.Pos()), f, x})
 				case *ast.AssignStmt:
@@ -122,7 +126,7 @@ func main() {
 			})
 		}
 	}
-	if m, ok := map[string][]site{"lit": lits, "errnil": errRets, "cmp": cmps, "del": dels, "neg": negs, "andor": andors, "eq": eqs, "arith": ariths}[*mode]; ok {
+	if m, ok := map[string][]site{"lit": lits, "errnil": errRets, "cmp": cmps, "del": dels, "neg": negs, "andor": andors, "eq": eqs, "arith": ariths, "ctl": ctls}[*mode]; ok {
 		sites := m
 		if *list {
 			for i, st := range sites {
@@ -150,6 +154,9 @@ func main() {
 		case *ast.BinaryExpr:
 			x.Op = map[token.Token]token.Token{token.LSS: token.LEQ, token.LEQ: token.LSS, token.GTR: token.GEQ, token.GEQ: token.GTR,
 				token.LAND: token.LOR, token.LOR: token.LAND, token.EQL: token.NEQ, token.NEQ: token.EQL, token.ADD: token.SUB, token.SUB: token.ADD}[x.Op]
+		case *ast.BranchStmt:
+			// break <-> continue (a dropped break in a switch case would change nothing; the swap changes the loop)
+			x.Tok = map[token.Token]token.Token{token.BREAK: token.CONTINUE, token.CONTINUE: token.BREAK}[x.Tok]
 		case *ast.IfStmt:
 			x.Cond = &ast.UnaryExpr{Op: token.NOT, X: &ast.ParenExpr{X: x.Cond}}
 		case *ast.AssignStmt:
